@@ -29,6 +29,9 @@ class Prop:
     def canon_impl(self, s):
         return s
 
+    def same(self, impl, mirror):
+        return impl == mirror
+
     def canon_model(self, s):
         return s
 
@@ -119,7 +122,7 @@ def run_check(prop, tier, seed, replay=None):
                 prop_fails.append((c, a, mirror[i], spec[i], p))
             elif mirror[i] == 'UNSUP':
                 unsupported += 1          # behaviour outside the model: not comparable
-            elif a != mirror[i]:
+            elif not prop.same(a, mirror[i]):
                 corr_breaks.append((c, a, mirror[i], spec[i], p))
     for i, c in enumerate(cases):
         if spec[i] != '-' and mirror[i] != 'UNSUP' and mirror[i] != spec[i]:
